@@ -101,6 +101,44 @@ Section Sound.
       + exists zero; ring.
       + ring.
   Qed.
+
+  (* ------------------------------------------------------------ termination (needs the division to be Euclidean) *)
+  Hypothesis deg_rem : forall a b, b <> zero -> deg (sub a (mul (div a b) b)) < deg b.
+  Hypothesis deg_nonneg : forall x, x <> zero -> 0 <= deg x.
+
+  Lemma deg_pos_nonzero x : 0 <= deg x -> x <> zero.
+  Proof. intros H E. rewrite E, deg_zero in H. lia. Qed.
+
+  Lemma ploop_total dk : -1 <= dk -> forall fuel N U D0 D,
+    U <> zero -> deg U < Z.of_nat fuel -> ploop GOps fuel N U D0 D dk <> None.
+  Proof.
+    intros Hdk fuel; induction fuel as [|n IH]; intros N U D0 D HU Hf; cbn [ploop].
+    - exfalso. pose proof (deg_nonneg U HU). cbn in Hf. lia.
+    - cbn [pdiv pmaxpy pdeg GOps].
+      set (N1 := sub N (mul (div N U) U)).
+      pose proof (deg_rem N U HU) as R1. fold N1 in R1.
+      destruct ((deg N1 <=? dk) || (deg N1 <? 0)) eqn:E1; [discriminate|].
+      apply orb_false_iff in E1. destruct E1 as [E1 E1']. apply Z.leb_gt in E1. apply Z.ltb_ge in E1'.
+      assert (HN1 : N1 <> zero) by (apply deg_pos_nonzero; lia).
+      set (U1 := sub U (mul (div U N1) N1)).
+      pose proof (deg_rem U N1 HN1) as R2. fold U1 in R2.
+      destruct (Z.leb_spec (deg U1) dk) as [L|L]; [discriminate|].
+      destruct (Z.geb_spec (deg U1) 0) as [G|G]; [|discriminate].
+      apply IH; [apply deg_pos_nonzero; lia|]. lia.
+  Qed.
+
+  Definition Poly_ratrecon_total_stmt : Prop := forall P M dk, 0 <= dk -> -1 <= deg M ->
+    pratrecon GOps P M dk <> None.
+  Lemma poly_ratrecon_total : Poly_ratrecon_total_stmt.
+  Proof.
+    intros P M dk Hdk HM. unfold pratrecon, pratrecon_fuel, pfuel. cbn [pdeg pone pzero GOps].
+    assert (Hc : clampdeg dk = dk) by (unfold clampdeg; destruct (Z.ltb_spec dk 0); lia).
+    rewrite Hc.
+    destruct ((deg P <? dk) || (deg M =? 0)) eqn:E1; [discriminate|].
+    destruct ((deg M <? 0) || (deg P =? 0)); [discriminate|].
+    apply orb_false_iff in E1. destruct E1 as [E1 _]. apply Z.ltb_ge in E1.
+    apply ploop_total; [lia|apply deg_pos_nonzero; lia|]. lia.
+  Qed.
 End Sound.
 
 (* the statement with its hypotheses spelled out *)
@@ -115,6 +153,19 @@ Definition Poly_ratrecon_sound : Prop :=
         (exists c, sub N (mul D P) = mul c M) /\ deg N <= dk /\ D <> zero.
 Lemma poly_ratrecon_sound_full : Poly_ratrecon_sound.
 Proof. exact poly_ratrecon_sound. Qed.
+
+(* termination within the fuel deg P + deg M + 4 when `div` is a Euclidean quotient *)
+Definition Poly_ratrecon_total : Prop :=
+  forall (T : Type) (zero one : T) (add mul sub : T -> T -> T) (opp : T -> T),
+    ring_theory zero one add mul sub opp (@eq T) ->
+    forall (deg : T -> Z) (div : T -> T -> T),
+      deg zero = -1 ->
+      (forall a b : T, b <> zero -> deg (sub a (mul (div a b) b)) < deg b) ->
+      (forall x : T, x <> zero -> 0 <= deg x) ->
+      forall (P M : T) (dk : Z), 0 <= dk -> -1 <= deg M ->
+        pratrecon (GOps T zero one mul sub deg div) P M dk <> None.
+Lemma poly_ratrecon_total_full : Poly_ratrecon_total.
+Proof. intros T zero one add mul sub opp Rth deg div Hz Hr Hn. exact (poly_ratrecon_total T zero one mul sub deg div Hz Hr Hn). Qed.
 
 (* the hypotheses are satisfiable: Z with deg x = (if x = 0 then -1 else 0) *)
 Example poly_hyps_example :
